@@ -35,6 +35,9 @@ PID = "C01"
 DEV_WORKERS = int(os.environ.get("VERIF_TLC_WORKERS", "16"))
 DEV_HEAP = os.environ.get("VERIF_TLC_HEAP", "8g")
 NPROC = int(os.environ.get("VERIF_PROCS", "16"))
+# the recursive operators of the specs go one level deeper per character of a text: a 130-character str overflows the default
+# Java thread stack; _JAVA_OPTIONS is the one JVM option channel that harness/lib/tlc.py leaves open
+JVM_ENV = {"_JAVA_OPTIONS": "-Xss64m"}
 PARTS = os.environ.get("VERIF_C01_PARTS", "scalars,dump,hyp").split(",")  # development aid: run a part only
 
 # ---------------------------------------------------------------- symbols <-> characters (alpha_char / gamma_char)
@@ -1170,7 +1173,7 @@ def validate_dump_trace(rep: Report, rec: DumpRecorder, tmp, label: str):
         else:
             f.write_text(json.dumps({"shapes": rec.shapes, "accepts": part if kind == "accept" else [], "leafs": part if kind == "leaf" else [],
                                      "cfgs": part if kind == "cfg" else []}))
-        tr = tlc.run("Trace_Dump", "Trace_Dump", workers=DEV_WORKERS if kind == "all" else max(4, DEV_WORKERS // 2), env={"TRACE_FILE": str(f)}, timeout=2400, heap=DEV_HEAP)
+        tr = tlc.run("Trace_Dump", "Trace_Dump", workers=DEV_WORKERS if kind == "all" else max(4, DEV_WORKERS // 2), env={"TRACE_FILE": str(f), **JVM_ENV}, timeout=2400, heap=DEV_HEAP)
         f.unlink()
         return job, tr
 
@@ -1603,8 +1606,8 @@ def main(argv):
 
     try:
         with ThreadPoolExecutor(max_workers=3) as pool:
-            fut_sc = pool.submit(tlc.run, "MC_Scalars", f"MC_Scalars_{tier}", workers=DEV_WORKERS, timeout=2400, heap=DEV_HEAP) if "scalars" in PARTS else None
-            fut_du = pool.submit(tlc.run, "MC_Dump", f"MC_Dump_{tier}", workers=DEV_WORKERS, timeout=2400, heap=DEV_HEAP) if "dump" in PARTS else None
+            fut_sc = pool.submit(tlc.run, "MC_Scalars", f"MC_Scalars_{tier}", workers=DEV_WORKERS, timeout=2400, heap=DEV_HEAP, env=JVM_ENV) if "scalars" in PARTS else None
+            fut_du = pool.submit(tlc.run, "MC_Dump", f"MC_Dump_{tier}", workers=DEV_WORKERS, timeout=2400, heap=DEV_HEAP, env=JVM_ENV) if "dump" in PARTS else None
             # meanwhile: the hypothesis-driven inputs (pure python)
             texts = hypothesis_texts(1000 if tier == "quick" else 12000, tier) if "scalars" in PARTS else []
             floats = hypothesis_floats(300 if tier == "quick" else 3000) if "scalars" in PARTS else []
@@ -1619,7 +1622,7 @@ def main(argv):
                 mark("scalar_replay_done")
                 f, obs, fobs = scalar_traces_observe(tier, tmp, texts, floats)
                 mark("scalar_traces_observed")
-                fut_ts = pool.submit(tlc.run, "Trace_Scalars", "Trace_Scalars", workers=DEV_WORKERS, env={"TRACE_FILE": str(f)}, timeout=2400, heap=DEV_HEAP)
+                fut_ts = pool.submit(tlc.run, "Trace_Scalars", "Trace_Scalars", workers=DEV_WORKERS, env={"TRACE_FILE": str(f), **JVM_ENV}, timeout=2400, heap=DEV_HEAP)
             rec = DumpRecorder()
             if fut_du is not None:
                 mc_du = fut_du.result()
